@@ -86,6 +86,7 @@ type Interp struct {
 	spec      int
 	merges    int
 	curFn     *ssa.Function
+	probes    []probe
 	symFmtOK  int
 	initBroken map[*ssa.Package]bool
 	assumed   map[*Term]bool
